@@ -112,16 +112,22 @@ func (s Step) String() string {
 
 // Position is one place a value can be supplied.
 type Position struct {
-	Field *ast.FieldDefinition
-	Arg   *ast.ArgumentDefinition
-	Steps []Step
-	Type  *ast.Type // type at the position
+	// Parent: for a field of an object type reached through an argument-less Query field
+	// (box { span(...) }), that Query field's name; "" for Query fields
+	Parent string
+	Field  *ast.FieldDefinition
+	Arg    *ast.ArgumentDefinition
+	Steps  []Step
+	Type   *ast.Type // type at the position
 	// HasDefault: the position (argument or input field) declares a default value
 	HasDefault bool
 }
 
 func (p Position) String() string {
 	s := p.Field.Name + "(" + p.Arg.Name + ")"
+	if p.Parent != "" {
+		s = p.Parent + "." + s
+	}
 	for _, st := range p.Steps {
 		s += st.String()
 	}
@@ -157,6 +163,15 @@ func (g *Gen) Positions() []Position {
 		for _, ad := range fd.Arguments {
 			g.descend(&out, Position{Field: fd, Arg: ad, Type: ad.Type, HasDefault: ad.DefaultValue != nil})
 		}
+		// fields of an object returned by an argument-less Query field: their arguments are
+		// received by bound model methods
+		if obj := g.Schema.Types[fd.Type.Name()]; len(fd.Arguments) == 0 && obj != nil && obj.Kind == ast.Object {
+			for _, mf := range obj.Fields {
+				for _, ad := range mf.Arguments {
+					g.descend(&out, Position{Parent: fd.Name, Field: mf, Arg: ad, Type: ad.Type, HasDefault: ad.DefaultValue != nil})
+				}
+			}
+		}
 	}
 	return out
 }
@@ -168,7 +183,7 @@ func (g *Gen) descend(out *[]Position, p Position) {
 	}
 	with := func(s Step, t *ast.Type, def bool) Position {
 		steps := append(append([]Step(nil), p.Steps...), s)
-		return Position{Field: p.Field, Arg: p.Arg, Steps: steps, Type: t, HasDefault: def}
+		return Position{Parent: p.Parent, Field: p.Field, Arg: p.Arg, Steps: steps, Type: t, HasDefault: def}
 	}
 	if p.Type.Elem != nil {
 		g.descend(out, with(Step{Elem: true}, p.Type.Elem, false))
@@ -410,11 +425,29 @@ func (g *Gen) Alphabet(t *ast.Type) []LVal {
 	return out
 }
 
+// field renders the selection for position p with argText as the value of p.Arg ("" = the
+// argument is omitted). The field's other arguments are supplied only when they are
+// required (non-null without default), with a simple valid value.
 func (g *Gen) field(p Position, argText string) string {
-	if argText == "" {
-		return p.Field.Name
+	var parts []string
+	for _, ad := range p.Field.Arguments {
+		switch {
+		case ad == p.Arg:
+			if argText != "" {
+				parts = append(parts, ad.Name+": "+argText)
+			}
+		case ad.Type.NonNull && ad.DefaultValue == nil:
+			parts = append(parts, ad.Name+": "+g.Good(ad.Type, 0).Literal())
+		}
 	}
-	return p.Field.Name + "(" + p.Arg.Name + ": " + argText + ")"
+	sel := p.Field.Name
+	if len(parts) > 0 {
+		sel += "(" + strings.Join(parts, ", ") + ")"
+	}
+	if p.Parent != "" {
+		sel = p.Parent + " { " + sel + " }"
+	}
+	return sel
 }
 
 // containerOf names what directly contains the position (for signatures).
@@ -545,6 +578,24 @@ func Corpus() []Case {
 		mk(`{ omit(x: {o: null, os: null, oInner: null}) }`, ""),
 		mk(`{ omit(x: {o: 1, os: 2, oInner: {req: 1}, oStr: "s"}) }`, ""),
 		mk(`{ omit(x: {}) }`, ""),
+		// bound model methods whose Go parameter order differs from the schema order
+		mk(`{ box { span(from: 1, to: 9) } }`, ""),
+		mk(`{ box { spanDefault } }`, ""),
+		mk(`{ box { spanDefault(to: 7) } }`, ""),
+		mk(`{ box { label(prefix: "pre", suffix: "suf") } }`, ""),
+		mk(`{ box { label(prefix: "pre") } }`, ""),
+		mk(`{ box { label(suffix: null) } }`, ""),
+		mk(`{ box { tri(a: 1, b: 2) } }`, ""),
+		mk(`{ box { tri(c: null, b: 2) } }`, ""),
+		mk(`{ box { move(from: {x: 1}, to: {x: 7, y: 8}, steps: 4) } }`, ""),
+		mk(`{ box { move(to: {x: 7, y: null}, steps: [1, null], scale: null) } }`, ""),
+		mk(`query($f: PointIn, $t: PointIn, $s: [Int], $k: Int) { box { move(from: $f, to: $t, steps: $s, scale: $k) } }`, `{"f":{"x":1},"t":{"x":7,"y":8},"s":[4,5]}`),
+		mk(`{ box { lists(a: [1, 2]) } }`, ""),
+		mk(`{ box { lists(a: 5, b: [6, 7]) } }`, ""),
+		mk(`{ box { ratio(num: 1.5) } }`, ""),
+		mk(`{ box { ratio(num: 3, den: 4) } }`, ""),
+		mk(`{ box { scale(by: 2.5, n: 3) } }`, ""),
+		mk(`query($a: Int!, $b: Int!) { b2: box { s: span(to: $b, from: $a) } }`, `{"a":1,"b":9}`),
 	}
 }
 
